@@ -10,6 +10,7 @@ pub mod c01_roundtrip;
 pub mod c02_decode;
 pub mod c03_limits;
 pub mod c06_convert;
+pub mod c07_chunk_size;
 pub mod c09_receive;
 pub mod c12_sequence;
 pub mod c13_keys;
